@@ -589,8 +589,30 @@ func ruleLimitTable(c *core.Ctx) {
 			}
 			addRefs(fn, 1)
 			for _, g := range graphs {
+				// locals that hold the limit (limit := maxStringBytes, read once per call)
+				holds := map[types.Object]bool{lim: true}
+				for _, v := range g.Vs {
+					as, ok := v.AST.(*ast.AssignStmt)
+					if !ok || len(as.Lhs) != len(as.Rhs) {
+						continue
+					}
+					for i, l := range as.Lhs {
+						if obj := core.ObjOf(g.Info, l); obj != nil && core.ObjOf(g.Info, stripConv(g.Info, as.Rhs[i])) == lim && len(defVertices(g, obj)) == 1 {
+							holds[obj] = true
+						}
+					}
+				}
 				for _, bv := range g.BranchVertices() {
-					if bv.Cond.Expr == nil || !core.Mentions(info, bv.Cond.Expr, lim) {
+					if bv.Cond.Expr == nil {
+						continue
+					}
+					mentionsAny := false
+					for h := range holds {
+						if core.Mentions(info, bv.Cond.Expr, h) {
+							mentionsAny = true
+						}
+					}
+					if !mentionsAny {
 						continue
 					}
 					// find the comparison with the limit
@@ -601,7 +623,7 @@ func ruleLimitTable(c *core.Ctx) {
 						}
 						switch be.Op {
 						case token.GTR, token.GEQ, token.LSS, token.LEQ:
-							if core.ObjOf(info, be.X) == lim || core.ObjOf(info, be.Y) == lim {
+							if holds[core.ObjOf(info, stripConv(info, be.X))] || holds[core.ObjOf(info, stripConv(info, be.Y))] {
 								found = true
 								o.At(fn.Site(be, "compares with "+lu.limit))
 							}
@@ -918,66 +940,111 @@ func rulePeekDiscardPre(c *core.Ctx) {
 	c.Check(rule, "pdf.(*scanner).Discard/callers", "Discard panics for negative counts: every caller passes a constant or a value dominated by a non-negativity check", func(o *core.Ob) {
 		pkg := c.Prog.Pkg("pdf")
 		n := 0
-		for _, fn := range c.Prog.Funcs(pkg) {
+		geZero := func(info *types.Info, root types.Object) func(a core.Atom) bool {
+			return func(a core.Atom) bool {
+				cmp, isCmp := a.AsCmp()
+				if !isCmp || root == nil || !core.Mentions(info, cmp.L, root) {
+					return false
+				}
+				k, isK := core.IntConst(info, cmp.R)
+				return isK && k == 0 && (cmp.Op == token.GEQ || cmp.Op == token.GTR)
+			}
+		}
+		// nonNeg: the value of arg at vertex at of fn is known to be non-negative
+		var nonNeg func(fn *core.Func, at *core.V, arg ast.Expr, depth int) bool
+		nonNeg = func(fn *core.Func, at *core.V, arg ast.Expr, depth int) bool {
 			info := fn.Info()
+			g := fn.Graph()
+			if k, ok := core.IntConst(info, arg); ok {
+				return k >= 0
+			}
+			root := rootObj(info, arg)
+			if root == nil {
+				return false
+			}
+			if g.GuardedBy(at, geZero(info, root)) {
+				return true
+			}
+			// l = declared where declared >= 0 was established
+			for _, d := range core.AssignsTo(info, fn.Decl, root) {
+				as, isAs := d.(*ast.AssignStmt)
+				if !isAs {
+					continue
+				}
+				r2 := rootObj(info, as.Rhs[0])
+				if r2 == nil {
+					continue
+				}
+				v := g.VertexOf(as)
+				if v != nil && g.GuardedBy(v, geZero(info, r2)) {
+					return true
+				}
+				// or: the use is guarded by a flag that is only set by endstreamAt(start+declared),
+				// and that probe itself is guarded by declared >= 0
+				if g.GuardedBy(at, func(a core.Atom) bool {
+					id, isID := ast.Unparen(a.Expr).(*ast.Ident)
+					return isID && !a.Neg && a.Tag == nil && isEndstreamFlag(fn, info.ObjectOf(id), r2)
+				}) {
+					for _, pv := range callVertices(g, "pdf.endstreamAt") {
+						if g.GuardedBy(pv.V, geZero(info, r2)) {
+							return true
+						}
+					}
+				}
+			}
+			// a parameter of an unexported helper that is never reassigned: every call site in the package must pass a non-negative value
+			if depth > 0 && !fn.Obj.Exported() && len(defVertices(g, root)) == 0 && fn.Decl.Type.Params != nil {
+				idx, k := -1, 0
+				for _, fl := range fn.Decl.Type.Params.List {
+					for _, nm := range fl.Names {
+						if info.ObjectOf(nm) == root {
+							idx = k
+						}
+						k++
+					}
+					if len(fl.Names) == 0 {
+						k++
+					}
+				}
+				if idx < 0 {
+					return false
+				}
+				sites := 0
+				for _, caller := range c.Prog.Funcs(pkg) {
+					if caller.Decl.Body == nil || c.Prog.IsTestFile(caller.Decl.Pos()) {
+						continue
+					}
+					cg := caller.Graph()
+					for _, v := range cg.Vs {
+						if v.AST == nil {
+							continue
+						}
+						for _, cs := range core.CallsIn(caller.Info(), v.AST, false) {
+							if cs.Fn == nil || cs.Fn.Origin() != fn.Obj.Origin() || idx >= len(cs.Call.Args) {
+								continue
+							}
+							sites++
+							if !nonNeg(caller, v, cs.Call.Args[idx], depth-1) {
+								return false
+							}
+						}
+					}
+				}
+				return sites > 0
+			}
+			return false
+		}
+		for _, fn := range c.Prog.Funcs(pkg) {
 			g := fn.Graph()
 			for _, cv := range callVertices(g, "pdf.(*scanner).Discard") {
 				n++
 				arg := cv.Call.Args[0]
 				o.At(fn.Site(cv.Call, "Discard("+core.ExprStr(arg)+")"))
-				if k, ok := core.IntConst(info, arg); ok {
+				if k, ok := core.IntConst(fn.Info(), arg); ok {
 					o.Require(k >= 0, "Discard(%d)", k)
 					continue
 				}
-				root := rootObj(info, arg)
-				ok := g.GuardedBy(cv.V, func(a core.Atom) bool {
-					cmp, isCmp := a.AsCmp()
-					if !isCmp || root == nil || !core.Mentions(info, cmp.L, root) {
-						return false
-					}
-					k, isK := core.IntConst(info, cmp.R)
-					return isK && k == 0 && (cmp.Op == token.GEQ || cmp.Op == token.GTR)
-				})
-				if !ok && root != nil {
-					// l = declared where declared >= 0 was established
-					for _, d := range core.AssignsTo(info, fn.Decl, root) {
-						if as, isAs := d.(*ast.AssignStmt); isAs {
-							if r2 := rootObj(info, as.Rhs[0]); r2 != nil {
-								v := g.VertexOf(as)
-								if v != nil && g.GuardedBy(v, func(a core.Atom) bool {
-									cmp, isCmp := a.AsCmp()
-									if !isCmp || !core.Mentions(info, cmp.L, r2) {
-										return false
-									}
-									k, isK := core.IntConst(info, cmp.R)
-									return isK && k == 0 && (cmp.Op == token.GEQ || cmp.Op == token.GTR)
-								}) {
-									ok = true
-								}
-								// or: the use is guarded by a flag that is only set by endstreamAt(start+declared),
-								// and that probe itself is guarded by declared >= 0
-								if g.GuardedBy(cv.V, func(a core.Atom) bool {
-									id, isID := ast.Unparen(a.Expr).(*ast.Ident)
-									return isID && !a.Neg && a.Tag == nil && isEndstreamFlag(fn, info.ObjectOf(id), r2)
-								}) {
-									for _, pv := range callVertices(g, "pdf.endstreamAt") {
-										if g.GuardedBy(pv.V, func(a core.Atom) bool {
-											cmp, isCmp := a.AsCmp()
-											if !isCmp || !core.Mentions(info, cmp.L, r2) {
-												return false
-											}
-											k, isK := core.IntConst(info, cmp.R)
-											return isK && k == 0 && (cmp.Op == token.GEQ || cmp.Op == token.GTR)
-										}) {
-											ok = true
-										}
-									}
-								}
-							}
-						}
-					}
-				}
-				if !ok {
+				if !nonNeg(fn, cv.V, arg, 2) {
 					o.FailAt(fn.Site(cv.Call, ""), "Discard(%s) is not dominated by a check that the count is non-negative", core.ExprStr(arg))
 				}
 			}
@@ -1162,7 +1229,13 @@ func ruleDepthDiscipline(c *core.Ctx) {
 					continue
 				}
 				nEdges++
-				edges[fn] = append(edges[fn], edge{k, classify(fn.Info(), cs.Call.Args[ki], d), cs.Call})
+				w := classify(fn.Info(), cs.Call.Args[ki], d)
+				if w == 0 {
+					// the depth variable itself is handed on: it has grown if every path to the
+					// call passes an increment of it (depth++ in front of the loop over the kids)
+					w = grownBefore(fn, cs.Call, d)
+				}
+				edges[fn] = append(edges[fn], edge{k, w, cs.Call})
 			}
 		}
 		// only recursive uses matter: the guarded function can reach itself
@@ -2072,4 +2145,50 @@ func poolAssertionSafe(c *core.Ctx, fn *core.Func, ta *ast.TypeAssertExpr) bool 
 		}
 	}
 	return true
+}
+
+// grownBefore reports 1 when every path from the function's entry to the
+// call passes an increment of the variable d (d++, d += k, d = d + k with a
+// positive constant) and d is not assigned in any other way; 0 otherwise.
+func grownBefore(fn *core.Func, call *ast.CallExpr, d types.Object) int {
+	if d == nil || fn.Decl.Body == nil {
+		return 0
+	}
+	g := fn.Graph()
+	info := fn.Info()
+	at := g.VertexOf(call)
+	if at == nil {
+		return 0
+	}
+	var incs []*core.V
+	for _, v := range defVertices(g, d) {
+		isInc := false
+		switch st := v.AST.(type) {
+		case *ast.IncDecStmt:
+			isInc = st.Tok == token.INC
+		case *ast.AssignStmt:
+			if len(st.Lhs) == 1 && len(st.Rhs) == 1 {
+				if st.Tok == token.ADD_ASSIGN {
+					k, isK := core.IntConst(info, st.Rhs[0])
+					isInc = isK && k > 0
+				} else if st.Tok == token.ASSIGN {
+					if be, isBin := ast.Unparen(st.Rhs[0]).(*ast.BinaryExpr); isBin && be.Op == token.ADD && core.ObjOf(info, be.X) == d {
+						k, isK := core.IntConst(info, be.Y)
+						isInc = isK && k > 0
+					}
+				}
+			}
+		}
+		if !isInc {
+			return 0
+		}
+		incs = append(incs, v)
+	}
+	if len(incs) == 0 {
+		return 0
+	}
+	if g.ReachFrom(g.Entry, true, core.AvoidVs(incs...))[at] {
+		return 0
+	}
+	return 1
 }
